@@ -171,21 +171,24 @@ func runC13(c *Ctx) {
 				continue
 			}
 			fs := FactsAtInstr(call.(ssa.Instruction))
-			// what is appended
-			var elem *Term
+			// what is appended: every value that can reach the appended slot, with the facts under
+			// which it is the one chosen (`next := old[i]; if i == index { next = ref }` ≡ if/else)
+			var elems []Leaf
 			if sl, ok := call.Common().Args[1].(*ssa.Slice); ok {
 				if al, ok := sl.X.(*ssa.Alloc); ok {
 					for _, st := range allStoresTo(al) {
-						elem = TermOf(st.Val)
+						elems = append(elems, Leaves(st.Val, st.Block())...)
 					}
 				}
 			}
-			if elem == nil {
-				continue
-			}
-			if elem.Op == "index" {
+			for _, lf := range elems {
+				elem := TermOf(lf.V)
+				if elem.Op != "index" {
+					continue
+				}
 				// copying oldRefs[i]: must be under i != index
-				if HasFact(fs, FCmp("!=", func(t *Term) bool { return t.String() == elem.Args[1].String() }, MResult("gateway.getServiceBackendRef", 0))) {
+				all := append(append([]Fact{}, fs...), lf.Facts...)
+				if HasFact(all, FCmp("!=", func(t *Term) bool { return t.String() == elem.Args[1].String() }, MResult("gateway.getServiceBackendRef", 0))) {
 					okCopy = true
 				} else {
 					bad = "an old entry is copied without the guard i != index"
@@ -247,10 +250,25 @@ func runC13(c *Ctx) {
 		c.Unresolved("R13.4", "buildDesiredHTTPRoute")
 	} else {
 		n := 0
-		for _, call := range AllCalls(fn) {
-			if CalleeName(call.Common()) != "append" {
+		outer := fn
+		// the restore branch may live in the function itself or in a helper it calls under the sentinel fact
+		type site struct {
+			fn   *ssa.Function
+			call ssa.CallInstruction
+		}
+		var sites []site
+		for _, f := range samePkgClosure(p, outer) {
+			if strings.Contains(FuncName(f), "buildCanaryHeaderHttpRoutes") || strings.Contains(FuncName(f), "buildCanaryWeightHttpRoutes") {
 				continue
 			}
+			for _, call := range AllCalls(f) {
+				if CalleeName(call.Common()) == "append" {
+					sites = append(sites, site{f, call})
+				}
+			}
+		}
+		for _, st := range sites {
+			fn, call := st.fn, st.call
 			fs := FactsAtInstr(call.(ssa.Instruction))
 			if !HasFact(fs, FCmp("==", MAny(), MConst("-1"))) {
 				continue
